@@ -47,20 +47,19 @@ package scheduler
 
 // ---- election order is a function of state and entropy (C14): map iteration order never reaches the shuffle ----
 //
-// GOrdDet[a] = "the order of the elements of the address array a is a function
-// of the SET of its elements (and of deterministic inputs)". A slice collected
+// ordDet(s) = "the order of the elements of the backing array of s is a function
+// of the SET of its elements (and of deterministic inputs)" - established by the
+// library models of sort.Slice / sort.Strings / slices.Sort. A slice collected
 // from a Go map has no such guarantee; sortAddresses establishes it; the
 // entropy-seeded shuffle and the stable sort by balance preserve it (they are
 // deterministic functions of the contents, the DRBG state and the balances).
 
 //@ import staking "github.com/oasisprotocol/oasis-core/go/staking/api"
 //@ import "github.com/oasisprotocol/oasis-core/go/common/quantity"
-//@ ghost var GOrdDet map[*staking.Address]bool
 
 //@ func sortAddresses
-//@   trusted
-//@   modifies addrs, GOrdDet
-//@   ensures GOrdDet[arrOf(addrs)] && (forall a *staking.Address :: a != arrOf(addrs) ==> GOrdDet[a] == old(GOrdDet[a]))
+//@   props C14
+//@   ensures ordDet(addrs)
 //@   note sort.Slice by bytes.Compare of the addresses: the resulting order depends only on the set of addresses (they are distinct map keys)
 
 //@ func shuffleAddresses
@@ -84,12 +83,12 @@ package scheduler
 
 //@ func stakingAddressMapToSliceByStake
 //@   props C14
-//@   precall scheduler\.shuffleAddresses$ :: GOrdDet[arrOf(addrs)]
-//@   ensures err == nil ==> GOrdDet[arrOf(result0)]
+//@   precall scheduler\.shuffleAddresses$ :: ordDet(addrs)
+//@   ensures err == nil ==> ordDet(result0)
 //@   note the slice handed to the entropy-seeded shuffle (and returned) never carries Go's map iteration order: it is sorted first
 
 //@ func distributeRewards
 //@   props C14
 //@   requires ctx != nil && schedulerParameters != nil && quantity.Val(&schedulerParameters.RewardFactorEpochElectionAny) >= 0
-//@   precall state\.MutableState\)\.AddRewards$ :: GOrdDet[arrOf(addrs)]
+//@   precall state\.MutableState\)\.AddRewards$ :: ordDet(addrs)
 //@   note rewards are paid in sorted address order (the order of account updates and events is part of the replicated state)
